@@ -56,19 +56,31 @@ def scope_fns(ctx, which):
     raise ValueError(which)
 
 
-def _match_entry(entries, site):
+def _match_entry(entries, site, facts=None):
+    """The audit entry covering a site.  A site inside a closure, or inside a helper that is not in the baseline
+    table, is looked up under the baseline function it is part of as well (moving audited code into a closure or a
+    private helper, or out of one, does not un-audit it)."""
     fn = strip_generics(site.fn)
+    fns = [fn]
+    if facts is not None:
+        fns += sorted(facts.owners_of(fn) - {fn})
     base = M.show(site.ops[0]) if site.ops and "index" in site.kind else ""
-    best = None
-    for e in entries:
-        if e["fn"] != fn or e["kind"] != site.kind:
-            continue
-        if "base" in e:
-            if e["base"] != base:
+    for f in fns:
+        best = None
+        for e in entries:
+            efn = e["fn"]
+            if "::{closure" in efn and f != efn:
+                efn = efn[:efn.index("::{closure")]
+            if efn != f or e["kind"] != site.kind:
                 continue
-            return e
-        best = best or e
-    return best
+            if "base" in e:
+                if e["base"] != base:
+                    continue
+                return e
+            best = best or e
+        if best is not None:
+            return best
+    return None
 
 
 def _subst_arg(spec, args):
@@ -104,7 +116,7 @@ def run(run, ctx, fns, label, restrict=None):
                                     "obligation": "%s(%s) in %s" % (s.kind, s.opstr(), strip_generics(s.fn)),
                                     "by": s.proof})
             continue
-        e = _match_entry(entries, s)
+        e = _match_entry(entries, s, ctx.facts)
         fnp = strip_generics(s.fn)
         okey = (fnp, s.kind, s.opstr())
         ordinal[okey] = ordinal.get(okey, 0) + 1
